@@ -370,10 +370,6 @@ fn boundary_len_name(n: usize) -> String {
 }
 
 fn check_boundary(family: &str, n: usize, acc: &mut Acc) {
-    let t0 = std::time::Instant::now();
-    struct P(std::time::Instant, usize);
-    impl Drop for P { fn drop(&mut self) { eprintln!("T   case n={} {:?}", self.1, self.0.elapsed()); } }
-    let _p = P(t0, n);
     let case = || json!({"space": "boundary", "family": family, "idx": n});
     let ty = family.split('.').next().unwrap_or(family);
     let name = format!("{ty}:len={}", boundary_len_name(n));
@@ -575,7 +571,6 @@ fn explore(ctx: &Ctx) {
     ctx.sample(json!({"policies_idx": all.len() - 1, "value": short(&all[all.len() - 1]),
                       "encoded": hex_head(&all[all.len() - 1].to_bytes()), "verdict": "round-trips"}));
 
-    eprintln!("T before boundary {:.2}", ctx.elapsed());
     // ---- B2. length boundary of byte vectors (sequential: ~100 MiB per value)
     {
         let mut acc = Acc::default();
@@ -596,7 +591,6 @@ fn explore(ctx: &Ctx) {
         );
     }
 
-    eprintln!("T after boundary {:.2}", ctx.elapsed());
     // ---- C. transactions
     let star_n = txcorpus::tx_count(CorpusLevel::Star);
     for precomputed in [false, true] {
